@@ -139,6 +139,9 @@ Definition ex_lists : dgraph :=
   mkdg [(5%Z, [("v", PList [PInt 1; PInt 2])]); (3%Z, []); (9%Z, [("v", PList [PInt (-3); PInt 4])])]
        [((5%Z, 3%Z), [("r", PList [PFloat 512])]); ((3%Z, 9%Z), [("r", PList [PFloat 1024; PFloat 2048])])].
 
+Ltac leaf_tac := split; [reflexivity | vm_compute; reflexivity].
+Ltac lv_tac := split; [reflexivity | split; [vm_compute; reflexivity | split; [repeat (constructor; [leaf_tac|]); constructor | discriminate]]].
+
 Example C03_lists_nonvacuous :
   dom_values true ex_lists /\
   nx_rt true ex_lists 0 0
@@ -153,10 +156,14 @@ Proof.
   - intros e He. cbn in He. destruct He as [<-|[<-|[]]]; cbn; auto.
   - intros name Hin. vm_compute in Hin. destruct Hin as [<-|[]]. split; [discriminate|]. split; [discriminate|].
     right. left. exists DI64, [2%nat]. split; [right; left; reflexivity|]. split; [discriminate|].
-    vm_compute. repeat constructor; try discriminate.
+    replace (filled (column (map snd (d_nodes ex_lists)) "v"))
+      with [PList [PInt 1; PInt 2]; PList [PInt 1; PInt 2]; PList [PInt (-3); PInt 4]] by (vm_compute; reflexivity).
+    constructor; [lv_tac | constructor; [lv_tac | constructor; [lv_tac | constructor]]].
   - intros name Hin. vm_compute in Hin. destruct Hin as [<-|[]]. split; [discriminate|]. split; [discriminate|].
-    right. right. exists DF64, 1%nat. split; [right; right; right; left; reflexivity|]. split; [reflexivity|].
-    vm_compute. constructor; [exists [1%nat] | constructor; [exists [2%nat] | constructor]]; repeat constructor; try discriminate.
+    right. right. exists DF64, 1%nat. split; [right; right; right; left; reflexivity|]. split; [vm_compute; reflexivity|].
+    replace (filled (column (map snd (d_edges ex_lists)) "r"))
+      with [PList [PFloat 512]; PList [PFloat 1024; PFloat 2048]] by (vm_compute; reflexivity).
+    constructor; [exists [1%nat]; split; [reflexivity | lv_tac] | constructor; [exists [2%nat]; split; [reflexivity | lv_tac] | constructor]].
 Qed.
 
 Example C03_nonvacuous :
